@@ -222,6 +222,15 @@ Section KeysModel.
     fold_left step ops (node_new seed st net).
 End KeysModel.
 
+(** ChannelId::new_from_peer_id_and_oid(peer_id, oid): peer_id (33 bytes) ++ oid.to_le_bytes();
+    the whole 64-bit dbid enters the id *)
+Fixpoint le_bytes (n : nat) (d : N) : bytes :=
+  match n with
+  | O => []
+  | S m => d mod 256 :: le_bytes m (d / 256)
+  end.
+Definition chan_id_of (peer : bytes) (dbid : N) : bytes := peer ++ le_bytes 8 dbid.
+
 (** channel ids the public API produces: 32-byte nonces (new_channel_with_random_id,
     ChannelId::new_from_oid) and peer_id(33) ++ dbid.to_le_bytes() with dbid >= 1
     (Node::new_channel refuses dbid <= dbid_high_water_mark, which starts at 0) *)
